@@ -944,6 +944,14 @@ pub fn gen_pool(master: u64, job: u64, tier: Tier) -> Pool {
             files.push(Arc::new(f));
             continue;
         }
+        if tier == Tier::Thorough && job % 50 == 7 && i == 0 {
+            // an input whose expanded form exceeds 4 MiB (anything that switches behaviour, or
+            // keeps state, above a size threshold)
+            let mut f = workload::gen_file_with_expanded_size((4 << 20) + rng.range(1000, 900_000) as usize);
+            f.extend_from_slice(&workload::gen_file(&mut rng, sc).file);
+            files.push(Arc::new(f));
+            continue;
+        }
         if job % 4 == 1 {
             // a member plus a literal stretch of more than 64 KiB (several passes of the literal copy loop)
             let mut f = workload::gen_file(&mut rng, sc).file;
@@ -1731,10 +1739,10 @@ fn miri_arm(ctx: &ExtraCtx) -> ExtraResult {
     let n_fast = util::env_u64("VERIF_MIRI_FAST").unwrap_or(32);
     let mut plans: Vec<(u64, bool, u64)> = Vec::new();
     for k in 0..n_full {
-        plans.push((ctx.master_seed.wrapping_mul(1000).wrapping_add(k), true, k % 3));
+        plans.push((ctx.master_seed.wrapping_mul(1000).wrapping_add(k), true, k % 4));
     }
     for k in 0..n_fast {
-        plans.push((ctx.master_seed.wrapping_mul(1000).wrapping_add(500 + k), false, k % 3));
+        plans.push((ctx.master_seed.wrapping_mul(1000).wrapping_add(500 + k), false, k % 4));
     }
     let next = std::sync::atomic::AtomicUsize::new(0);
     let results: Mutex<Vec<(u64, bool, u64, MiriOutcome)>> = Mutex::new(Vec::new());
@@ -1792,7 +1800,7 @@ fn miri_arm(ctx: &ExtraCtx) -> ExtraResult {
         name: "miri".into(),
         evaluations: pass_full + pass_fast + violations.len() as u64,
         evidence: J::obj()
-            .set("name", J::str("Miri arm: 2 threads x (decompress_deflate_stream + recompress_deflate_stream) on a shared ~200 byte stream after a sequential reference; Miri's seeded scheduler preempts at basic-block granularity; data-race and uninitialised-read detection on"))
+            .set("name", J::str("Miri arm: cold start - 2 threads x (decompress_deflate_stream + recompress_deflate_stream) on a shared ~200 byte stream make the first calls of the process, the sequential reference is computed afterwards; 4 streams (zlib levels 6/1/9 and one without 3 byte matches); Miri's seeded scheduler preempts at basic-block granularity; data-race and uninitialised-read detection on"))
             .set("full_mode_seeds_passed", J::u(pass_full))
             .set("fast_mode_seeds_passed", J::u(pass_fast))
             .set("failed", J::u(violations.len() as u64))
